@@ -12,7 +12,9 @@
     - [s == nil] on a slice is exact for a non-empty slice (false) and an
       arbitrary answer (oracle [orc], quantified in every theorem) for an empty one;
     - maps are association lists and are never nil; strings and []byte are byte lists;
-    - a pointer to a struct is the struct's value: it is never nil and two
+    - a pointer field that the package compares with nil or sets to nil is a value
+      field plus a boolean field [<S>_<f>_isnil]; a dereference while the flag is set panics;
+      every other pointer to a struct is the struct's value: it is never nil and two
       pointers never alias (the translator rejects pointer parameters that are
       written through); fields whose types are outside the subset are left out
       of the record and any use of them stops the translation;
@@ -37,7 +39,7 @@ Notation "x <- m ;; k" := (gbind m (fun x => k)) (at level 61, m at next level, 
 Notation "' p <- m ;; k" := (gbind m (fun p => k)) (at level 61, p pattern, m at next level, right associativity).
 
 (** errors: nil, a package-level error variable, or errors.New(msg) *)
-Inductive gerr := ENil | EVar (name : string) | ENew (msg : string).
+Inductive gerr := ENil | EVar (name : string) | ENew (msg : string) | ENewB (msg : bytes).
 Definition err_is_nil (e : gerr) : bool := match e with ENil => true | _ => false end.
 
 Definition bs (s : string) : bytes := list_byte_of_string s.
@@ -124,6 +126,13 @@ Fixpoint adel {V} (m : list (bytes * V)) (k : bytes) : list (bytes * V) :=
 (** the inner map of m[a][b] = v: a missing key gives a nil map, and a store into a nil map panics *)
 Definition gmapget {V} (m : list (bytes * V)) (k : bytes) : gres V :=
   match alookup m k with Some v => GOk v | None => GPanic end.
+
+(** dereferencing a pointer field whose nil flag is set panics *)
+Definition gnonnil (isnil : bool) : gres unit := if isnil then GPanic else GOk tt.
+
+(** strings.Contains / bytes.Contains *)
+Fixpoint bytes_contains (s sub : bytes) : bool :=
+  has_prefix s sub || match s with [] => false | _ :: r => bytes_contains r sub end.
 
 (** loops.  A loop body yields the new values of the variables it assigns
     ([LNext]: fell through or [continue]), [LBreak], or [LRet] (a [return]
